@@ -1920,12 +1920,13 @@ func (a *Agent) TaskPrepare(Command int, Info any, Message *map[string]string, C
 
 							} else {
 
+								/* the client is gone (also when it closed cleanly: io.EOF) */
 								if err != io.EOF {
-
-									/* we failed to read from the socks proxy */
 									logger.Error(fmt.Sprintf("Failed to read from socket %08x: %v", SocketId, err))
+								}
 
-									a.SocksClientClose(int32(SocketId))
+								/* forget the socket and tell the agent, unless the agent closed it first */
+								if a.SocksClientClose(int32(SocketId)) {
 
 									/* make a new job */
 									var job = Job{
